@@ -255,8 +255,10 @@ def main():
     h = import_hvsrpy()
     # ---- design level -------------------------------------------------------------------------
     pos, neg = ("Session_Pq", "Session_Iq") if run.quick else ("Session_P", "Session_I")
-    res = tlc("Session", pos, timeout=3000)
+    res = tlc("Session", pos, timeout=3000, coverage=True)
     require_tlc_ok(res, pos)
+    from vcommon import require_coverage
+    run.notes["action_coverage"] = require_coverage(res, ["Process", "Modify"], pos)
     run.add_tlc(res, f"{pos}: Repeatable NeverTruncates InputsUntouched ResultsImmutable (property-level design)")
     nres = tlc("Session", neg, timeout=600)
     run.notes["negative_config_ratchet_breaks_Repeatable"] = (nres.violated == "Repeatable")
